@@ -15,6 +15,7 @@
   * `for a, b in ((x1, y1), (x2, y2)): BODY`  ->  BODY[a:=x1, b:=y1] ; BODY[a:=x2, b:=y2]   (literal of pure elements, possibly held
                                          in a local bound once; no break/continue/else)
   * `setattr(o, "name", v)`          ->  o.name = v
+  * `if (x := E) is not None:`       ->  x = E ; if x is not None:      (walrus evaluated first in the test)
   * `for ...: ... else:` untouched
   * `if C: return X` + fall-through `return Y` untouched (paths handle it)
   * `elif` chains are already nested Ifs in the AST
@@ -144,6 +145,25 @@ class _D(ast.NodeTransformer):
             a = self.visit_Assign(_loc(ast.Assign(targets=[copy.deepcopy(t)], value=v.body, type_comment=None), node))
             b = self.visit_Assign(_loc(ast.Assign(targets=[copy.deepcopy(t)], value=v.orelse, type_comment=None), node))
             return _loc(ast.If(test=v.test, body=a if isinstance(a, list) else [a], orelse=b if isinstance(b, list) else [b]), node)
+        return node
+
+    def visit_If(self, node):
+        """`if (x := E) <test>:`  ->  `x = E` ; `if x <test>:`   (the walrus is the first thing the test evaluates)"""
+        self.generic_visit(node)
+        t = node.test
+        holder, attr = None, None
+        if isinstance(t, ast.NamedExpr):
+            holder, attr = node, "test"
+        elif isinstance(t, ast.Compare) and isinstance(t.left, ast.NamedExpr):
+            holder, attr = t, "left"
+        elif isinstance(t, ast.UnaryOp) and isinstance(t.op, ast.Not) and isinstance(t.operand, ast.NamedExpr):
+            holder, attr = t, "operand"
+        elif isinstance(t, ast.UnaryOp) and isinstance(t.op, ast.Not) and isinstance(t.operand, ast.Compare) and isinstance(t.operand.left, ast.NamedExpr):
+            holder, attr = t.operand, "left"
+        if holder is not None:
+            ne = getattr(holder, attr)
+            setattr(holder, attr, _loc(ast.Name(id=ne.target.id, ctx=ast.Load()), node))
+            return [_loc(ast.Assign(targets=[ast.Name(id=ne.target.id, ctx=ast.Store())], value=ne.value, type_comment=None), node), node]
         return node
 
     lits = {}  # name -> literal tuple/list it is bound to once (set per function by desugar())
